@@ -40,7 +40,8 @@ theories/Base/PySem*.v is edited.  This file adds the subclass TrA and the suppo
   encoder.get_mode_name; the Coq signature is looked up in the generated file), function values (`iterfn = a if c else b`),
   `map(QRCode, xs)`; encoder.encode_sequence is the parameter ext_encode_sequence (its body belongs to gen/translate_seqbody.py).
 
-Nothing here decides a property: it regenerates Coq text which coqc checks through theories/Tie/TieApiUri.v, TieApiQr.v.
+Nothing here decides a property: it regenerates Coq text which coqc checks through theories/Tie/TieApiUri.v, TieApiQr.v,
+TieApiMake.v (DESIGN.md 11.20).
 
 Usage: translate_api.py <repo> <outdir>      (prints a JSON status report on stdout)
 """
@@ -229,6 +230,8 @@ class Callee:
 
 
 class Registry:
+    """The callees known so far: by the identity of the Python object (a function may have one translation per declared input
+    shape), or by a name for what is no Python object (the dispatch over _VALID_SERIALIZERS)."""
     def __init__(self):
         self.by_id = {}
         self.keep = []
@@ -237,7 +240,12 @@ class Registry:
         self.keep.append(obj)
         self.by_id.setdefault(id(obj), []).append(callee)
 
+    def add_named(self, name, callee):
+        self.by_id.setdefault(name, []).append(callee)
+
     def get(self, obj):
+        if isinstance(obj, str):
+            return self.by_id.get(obj, [])
         return self.by_id.get(id(obj), [])
 
 
@@ -598,7 +606,7 @@ class TrA(TrR):
         obj, receiver = self.callee_object(f)
         if obj is not None and obj is vars(self.module).get('QRCodeSequence') and isinstance(obj, type) and len(e.args) == 1 \
                 and not e.keywords:
-            TR_seq_ok(obj)
+            seq_class_ok(obj)
             xs, tx = self.expr(e.args[0])
             if tx != ('list', 'qrcode'):
                 raise Untranslatable('QRCodeSequence of %r' % (tx,))
@@ -734,7 +742,7 @@ class TrA(TrR):
         raise Untranslatable('return inside the with block')
 
 
-def TR_seq_ok(cls):
+def seq_class_ok(cls):
     if not (isinstance(cls, type) and issubclass(cls, tuple) and cls.__bases__ == (tuple,)
             and not any(k in vars(cls) for k in ('__len__', '__iter__', '__getitem__', '__getattribute__', '__init__'))):
         raise Untranslatable('QRCodeSequence is not a plain tuple subclass')
@@ -943,7 +951,7 @@ class Group:
         return 'Definition %s %s : res (%s) :=\n (%s).\n' % (name, ' '.join(sig), coqtype(callee.ret), body)
 
     # ---- a function of the API layer
-    def define(self, modname, qualname, params, kwarg=None, ret_hint=None, out_param=None, decl_types=None, cls=None,
+    def define(self, modname, qualname, params, kwarg=None, out_param=None, decl_types=None, cls=None,
                coqname=None, variants=(), stream=None, init=False, register=True, typed=False):
         """Translate <module>.<qualname>.  params: every parameter with its type ('dyn' unless the body works on it).
         variants: numbers of positional arguments for which a keyword entry is generated."""
@@ -1018,7 +1026,7 @@ class Group:
                 def fall():
                     if init:
                         return 'Ok (Build_py_qrcode %s)' % ' '.join(tr.n('self__' + s) for s, _ in QR_SLOTS)
-                    if tr.rt_seen or ret_hint:
+                    if tr.rt_seen:
                         raise Untranslatable('function returns a value on some paths only')
                     return 'Ok tt'
                 body = tr.stmts(list(fn.body), Ctx(ret=ret, fall=fall))
@@ -1182,19 +1190,9 @@ def colorful_ok(writers_mod):
         raise Untranslatable('writers.colorful changed')
 
 
-class RegistryS(Registry):
-    def get(self, obj):
-        if isinstance(obj, str) and obj == 'serializer-dispatch':
-            return self.by_id.get('serializer-dispatch', [])
-        return Registry.get(self, obj)
-
-    def add_named(self, name, callee):
-        self.by_id.setdefault(name, []).append(callee)
-
-
 def translate_api(mods, report, outdir):
     files = {}
-    reg = RegistryS()
+    reg = Registry()
     W = mods['writers']
 
     # ================================================================= SrcApiUri.v
